@@ -42,6 +42,7 @@ class Gate:
         self.order = []
         self.lock = threading.Lock()
         self.fail_at = None
+        self.fail_from = None      # backend down: this call and every later one fails
         self.entered = 0
 
     def enter(self, label):
@@ -73,7 +74,7 @@ class GatedAsync(Backend):
             self.gate.max_pending = max(self.gate.max_pending, len(self.gate.pending))
             await ev.wait()
             self.gate.order.append(label)
-            if self.gate.fail_at is not None and idx == self.gate.fail_at:
+            if (self.gate.fail_at is not None and idx == self.gate.fail_at) or (self.gate.fail_from is not None and idx >= self.gate.fail_from):
                 raise InjectedFailure(label)
         except BaseException:
             self.gate.leave()
@@ -146,7 +147,7 @@ class GatedPlain(Backend):
             if not ev.wait(30):
                 raise TimeoutError('gate never released')
             self.gate.order.append(label)
-            if self.gate.fail_at is not None and idx == self.gate.fail_at:
+            if (self.gate.fail_at is not None and idx == self.gate.fail_at) or (self.gate.fail_from is not None and idx >= self.gate.fail_from):
                 raise InjectedFailure(label)
         except BaseException:
             self.gate.leave()
@@ -388,9 +389,10 @@ def run_case(case, wd: Path, chooser_factory):
             await t
             gate.entered = 0
             gate.fail_at = case['fail_at'] if case['fail_phase'] == 'snapshot' else None
+            gate.fail_from = case.get('down_from') if case['fail_phase'] == 'snapshot' else None
             t = asyncio.ensure_future(repo.snapshot(paths=[wd / 'src']))
             try:
-                await asyncio.wait_for(drive(gate, t, chooser), 90)
+                await asyncio.wait_for(drive(gate, t, chooser), 25)
             except (asyncio.TimeoutError, TimeoutError):
                 obs['problems'].append(('snapshot does not terminate under this completion order', 'hang'))
                 t.cancel()
@@ -399,7 +401,7 @@ def run_case(case, wd: Path, chooser_factory):
             obs['snapshot_max_outstanding'] = gate.max_outstanding
             obs['max_pending'] = gate.max_pending
             await _slots_back(repo, N, obs, 'snapshot', gate)
-            injected = gate.fail_at is not None and gate.entered > gate.fail_at
+            injected = (gate.fail_at is not None and gate.entered > gate.fail_at) or (gate.fail_from is not None and gate.entered > gate.fail_from)
             if snap_exc is not None:
                 if not (injected and isinstance(snap_exc, InjectedFailure)):
                     obs['problems'].append((f'snapshot raised {type(snap_exc).__name__}: {str(snap_exc)[:100]} '
@@ -410,6 +412,7 @@ def run_case(case, wd: Path, chooser_factory):
             if injected:
                 obs['problems'].append(('a backend call failed but snapshot reported success', 'swallowed'))
                 return
+            gate.fail_from = None
             manifest = canon_manifest(t.result())
             if manifest != seq_manifest:
                 obs['problems'].append(('snapshot manifest differs from the sequential run', 'manifest'))
@@ -429,7 +432,7 @@ def run_case(case, wd: Path, chooser_factory):
             out.mkdir()
             t = asyncio.ensure_future(repo2.restore(path=out))
             try:
-                await asyncio.wait_for(drive(gate, t, chooser), 90)
+                await asyncio.wait_for(drive(gate, t, chooser), 25)
             except (asyncio.TimeoutError, TimeoutError):
                 obs['problems'].append(('restore does not terminate under this completion order', 'hang'))
                 t.cancel()
@@ -497,13 +500,22 @@ def check(case, ctx, rep: Report, chooser_factory, tag):
     rep.case(case, nontrivial=nontrivial)
     rep.count(f'N={N}')
     rep.count('flavour=' + case['flavour'])
-    rep.count('fail=' + ('none' if case['fail_at'] is None else case['fail_phase']))
+    rep.count('fail=' + ('down' if case.get('down_from') is not None else 'none' if case['fail_at'] is None else case['fail_phase']))
     rep.count('rendezvous_met', obs.get('rendezvous_met', 0))
     rep.traces_validated += 1
     rep.sample({'case': {k: case[k] for k in ('mn', 'mx', 'N', 'flavour', 'fail_at', 'fail_phase', 'rendezvous', 'mode')},
                 'files': case['files'], 'observed': {k: v for k, v in obs.items() if k != 'problems'}})
     for what, kind in obs['problems']:
         rep.violations.append({'what': what, 'signature': {'kind': kind, 'flavour': case['flavour']}, 'replay': case})
+
+
+def backend_down_case(k):
+    """many chunks (more than the queue holds), the backend goes down for good at some call: every worker dies while the
+    producer thread is blocked on the full queue; snapshot must still end with the backend's error"""
+    N = 1 + k % 2
+    return {'mn': 16, 'mx': 16, 'files': [{'size': 16 * (14 * N + 6 + k), 'kind': 'rand'}], 'content_seed': 500 + k, 'N': N,
+            'flavour': ['plain', 'async'][(k // 2) % 2], 'order_seed': k, 'encrypted': False, 'fail_at': None, 'down_from': 1 + k % 3,
+            'fail_phase': 'snapshot', 'rendezvous': False, 'mode': 'backend-down'}
 
 
 def forced_race_case(k):
@@ -519,6 +531,10 @@ def _run(ctx, n_random, n_forced, n_perm, rep):
         case = forced_race_case(k)
         r = random.Random(k)
         check(case, ctx, rep, lambda r=r: (lambda n: r.randrange(n)), f'race{k}')
+    for k in range(max(2, n_forced // 3)):
+        case = backend_down_case(k)
+        r = random.Random(k)
+        check(case, ctx, rep, lambda r=r: (lambda n: r.randrange(n)), f'down{k}')
     # exhaustive completion orders for a tiny configuration: 2 files / ~3 chunks, N = 2
     tiny = {'mn': 32, 'mx': 32, 'files': [{'size': 64, 'kind': 'rand'}, {'size': 31, 'kind': 'rand'}], 'content_seed': 7, 'N': 2,
             'flavour': 'async', 'order_seed': 0, 'encrypted': False, 'fail_at': None, 'fail_phase': 'restore', 'rendezvous': False, 'mode': 'exhaustive'}
